@@ -5,6 +5,7 @@ package main
 
 import (
 	"crypto/sha256"
+	"crypto/sha512"
 	"encoding/base64"
 	"errors"
 	"fmt"
@@ -49,6 +50,8 @@ type Cfg struct {
 	// bodies have it): 0 plain base64, 1 wrapped at 64 columns with newline + indentation, 2 CRLF and tabs,
 	// 3 leading/trailing blank lines. White space is not part of the certificate.
 	CertLayout int `json:",omitempty"`
+	// FingerSHA512: the configured fingerprint and algorithm are the SHA-512 ones (same abstract configuration)
+	FingerSHA512 bool `json:",omitempty"`
 }
 
 func layoutCert(b64 string, layout int) string {
@@ -172,6 +175,14 @@ func (c Cfg) SP() *saml.ServiceProvider {
 	case tFinger:
 		fp := fingerprintOf(c.C)
 		alg := "http://www.w3.org/2001/04/xmlenc#sha256"
+		if c.FingerSHA512 {
+			sum := sha512.Sum512(fix.Cert(certNames[c.C]).Raw)
+			parts := make([]string, len(sum))
+			for i, b := range sum {
+				parts[i] = fmt.Sprintf("%02X", b)
+			}
+			fp, alg = strings.Join(parts, ":"), "http://www.w3.org/2001/04/xmlenc#sha512"
+		}
 		if !c.AlgOK {
 			alg = "http://www.w3.org/2000/09/xmldsig#sha1"
 		}
